@@ -1,0 +1,173 @@
+//! Verification hooks (cargo feature `verif`, off by default).
+//!
+//! Everything in here is additive: with the feature disabled none of this is
+//! compiled and the crate is textually the code under test. The hooks expose
+//! crate-private units to an external bounded-exhaustive explorer and allow it
+//! to own sources of nondeterminism (clock, size/count thresholds).
+
+use std::io::Read;
+
+use crate::{
+    blob::{BlobId, BlobType},
+    chunker::ChunkIter,
+    error::RusticResult,
+    index::{
+        IndexEntry, ReadIndex,
+        binarysorted::{Index, IndexCollector, IndexType},
+    },
+    repofile::{ConfigFile, IndexFile, IndexPack},
+};
+
+/// Reach the crate-private chunker exactly as the archiver builds it.
+///
+/// # Errors
+///
+/// * If the chunker parameters in `config` are refused.
+pub fn chunk_iter<R: Read + Send>(
+    config: &ConfigFile,
+    reader: R,
+    size_hint: usize,
+) -> RusticResult<impl Iterator<Item = RusticResult<Vec<u8>>>> {
+    ChunkIter::from_config(config, reader, size_hint)
+}
+
+/// Index modes (mirrors the crate-private `IndexType`).
+#[derive(Debug, Clone, Copy, PartialEq, Eq)]
+pub enum VIndexMode {
+    /// full entries for trees and data
+    Full,
+    /// full entries for trees, only ids for data
+    DataIds,
+    /// full entries for trees, nothing for data
+    OnlyTrees,
+}
+
+/// The crate-private in-memory index, built the way `GlobalIndex` builds it.
+#[derive(Debug)]
+pub struct VIndex(Index);
+
+/// Build the in-memory index from index files (only `packs` are collected, as in
+/// `GlobalIndex::new_from_collector`).
+#[must_use]
+pub fn index_from(files: Vec<IndexFile>, mode: VIndexMode) -> VIndex {
+    let tpe = match mode {
+        VIndexMode::Full => IndexType::Full,
+        VIndexMode::DataIds => IndexType::DataIds,
+        VIndexMode::OnlyTrees => IndexType::OnlyTrees,
+    };
+    let mut collector = IndexCollector::new(tpe);
+    for file in files {
+        collector.extend(file.packs);
+    }
+    VIndex(collector.into_index())
+}
+
+impl VIndex {
+    /// `ReadIndex::has`
+    #[must_use]
+    pub fn has(&self, tpe: BlobType, id: &BlobId) -> bool {
+        self.0.has(tpe, id)
+    }
+    /// `ReadIndex::get_id`
+    #[must_use]
+    pub fn get_id(&self, tpe: BlobType, id: &BlobId) -> Option<IndexEntry> {
+        self.0.get_id(tpe, id)
+    }
+    /// `ReadIndex::total_size`
+    #[must_use]
+    pub fn total_size(&self, tpe: BlobType) -> u64 {
+        self.0.total_size(tpe)
+    }
+    /// `Index::into_iter`
+    #[must_use]
+    pub fn into_packs(self) -> Vec<IndexPack> {
+        self.0.into_iter().collect()
+    }
+    /// `Index::drop_data`
+    #[must_use]
+    pub fn drop_data(self) -> Self {
+        Self(self.0.drop_data())
+    }
+}
+
+/// A clock offset added to the wall clock at the places that decide pruning.
+pub mod clock {
+    use std::sync::atomic::{AtomicI64, Ordering};
+
+    use jiff::{SignedDuration, Timestamp, Zoned};
+
+    static OFFSET_SECS: AtomicI64 = AtomicI64::new(0);
+
+    /// Set the offset (seconds) added to "now".
+    pub fn set_offset_secs(secs: i64) {
+        OFFSET_SECS.store(secs, Ordering::SeqCst);
+    }
+
+    /// Get the current offset (seconds).
+    #[must_use]
+    pub fn offset_secs() -> i64 {
+        OFFSET_SECS.load(Ordering::SeqCst)
+    }
+
+    pub(crate) fn adjust(t: Timestamp) -> Timestamp {
+        t.saturating_add(SignedDuration::from_secs(offset_secs()))
+            .unwrap_or(t)
+    }
+
+    pub(crate) fn adjust_zoned(t: &Zoned) -> Zoned {
+        t.saturating_add(SignedDuration::from_secs(offset_secs()))
+    }
+}
+
+/// Overrides for count thresholds which are otherwise out of reach of small inputs.
+pub mod limits {
+    use std::sync::atomic::{AtomicUsize, Ordering};
+
+    static INDEXER_MAX_COUNT: AtomicUsize = AtomicUsize::new(0);
+    static PACKER_MAX_COUNT: AtomicUsize = AtomicUsize::new(0);
+
+    /// Save the index file being built as soon as it lists `n` blobs (0 = no override).
+    pub fn set_indexer_max_count(n: usize) {
+        INDEXER_MAX_COUNT.store(n, Ordering::SeqCst);
+    }
+
+    /// Save a pack as soon as it holds `n` blobs (0 = no override).
+    pub fn set_packer_max_count(n: usize) {
+        PACKER_MAX_COUNT.store(n, Ordering::SeqCst);
+    }
+
+    pub(crate) fn indexer_max_count() -> Option<usize> {
+        match INDEXER_MAX_COUNT.load(Ordering::SeqCst) {
+            0 => None,
+            n => Some(n),
+        }
+    }
+
+    pub(crate) fn packer_max_count() -> Option<usize> {
+        match PACKER_MAX_COUNT.load(Ordering::SeqCst) {
+            0 => None,
+            n => Some(n),
+        }
+    }
+}
+
+/// Optional extra scheduling points at accesses to state shared between pipeline stages.
+pub mod point {
+    use std::sync::{Arc, RwLock};
+
+    type Callback = Arc<dyn Fn(&'static str) + Send + Sync>;
+
+    static CALLBACK: RwLock<Option<Callback>> = RwLock::new(None);
+
+    /// Install (or remove) the callback invoked at every scheduling point.
+    pub fn set(callback: Option<Callback>) {
+        *CALLBACK.write().unwrap() = callback;
+    }
+
+    pub(crate) fn hit(label: &'static str) {
+        let cb = CALLBACK.read().unwrap().clone();
+        if let Some(cb) = cb {
+            cb(label);
+        }
+    }
+}
